@@ -9,6 +9,7 @@ import (
 	"sort"
 	"strconv"
 	"strings"
+	"time"
 
 	admissionv1 "k8s.io/api/admission/v1"
 	v1 "k8s.io/api/core/v1"
@@ -105,6 +106,7 @@ type mPolicy struct {
 	Action, Event int64
 	Events        []int64
 	Exit          *int64
+	Timeout       int64
 }
 type mPart struct{ Total, Size, Min, NT int64 }
 type mTask struct {
@@ -125,6 +127,8 @@ type mVol struct {
 	Claim        *int64
 }
 type mPlugin struct{ Name, Master, Args int64 }
+
+const argsUnparsable = 99
 type mJob struct {
 	Name       int64
 	Tasks      []mTask
@@ -162,6 +166,7 @@ func encPolicies(out []int64, ps []mPolicy) []int64 {
 		out = append(out, p.Action, p.Event)
 		out = encList(out, p.Events)
 		out = encOpt(out, p.Exit)
+		out = append(out, p.Timeout)
 	}
 	return out
 }
@@ -263,6 +268,7 @@ func (r *rd) policies() []mPolicy {
 		p := mPolicy{Action: r.z(), Event: r.z()}
 		p.Events = r.list()
 		p.Exit = r.opt()
+		p.Timeout = r.z()
 		ps = append(ps, p)
 	}
 	return ps
@@ -419,6 +425,9 @@ func buildPolicies(ps []mPolicy) []batch.LifecyclePolicy {
 			c := int32(*p.Exit)
 			lp.ExitCode = &c
 		}
+		if p.Timeout != 0 {
+			lp.Timeout = &metav1.Duration{Duration: time.Duration(p.Timeout) * time.Second}
+		}
 		out = append(out, lp)
 	}
 	return out
@@ -436,6 +445,9 @@ func absPolicies(ps []batch.LifecyclePolicy) []mPolicy {
 		}
 		if p.ExitCode != nil {
 			m.Exit = p64(int64(*p.ExitCode))
+		}
+		if p.Timeout != nil {
+			m.Timeout = int64(p.Timeout.Duration / time.Second)
 		}
 		out = append(out, m)
 	}
@@ -530,10 +542,14 @@ func buildJob(m mJob) *batch.Job {
 		s.Plugins = map[string][]string{}
 		for _, p := range m.Plugins {
 			args := []string{}
+			if p.Args == argsUnparsable {
+				// the mpi plugin's FlagSet stops at the first unknown flag: --master is never read
+				args = append(args, "--bogus=1")
+			}
 			if p.Master != 0 {
 				args = append(args, "--master="+taskNames.str(p.Master))
 			}
-			if p.Args != 0 {
+			if p.Args != 0 && p.Args != argsUnparsable {
 				args = append(args, fmt.Sprintf("--port=%d", 1000+p.Args))
 			}
 			s.Plugins[pluginNames.str(p.Name)] = args
@@ -614,6 +630,8 @@ func absJob(j *batch.Job) mJob {
 			p := mPlugin{Name: pluginNames.id(name)}
 			for _, a := range args {
 				switch {
+				case a == "--bogus=1":
+					p.Args = argsUnparsable
 				case strings.HasPrefix(a, "--master="):
 					p.Master = taskNames.id(strings.TrimPrefix(a, "--master="))
 				case strings.HasPrefix(a, "--port="):
@@ -1000,33 +1018,50 @@ func shuffle(r *vh.Rng, xs []int64) []int64 {
 	return out
 }
 
-// a policy list that validatePolicies accepts
+// a policy list that validatePolicies accepts.  A policy's trigger is the union
+// of its singular `event` and its plural `events` (getEventList): every shape of
+// that union is produced: singular only, plural only, both, the singular repeated
+// inside the plural, a duplicated entry inside the plural, '*' in either field.
 func genPolicies(r *vh.Rng) []mPolicy {
 	var ps []mPolicy
-	switch r.Intn(5) {
+	to := func() int64 { return int64(vh.Pick(r, []int{0, 0, 0, 30, 600})) }
+	switch r.Intn(6) {
 	case 0:
 		return nil
 	case 1:
-		ps = append(ps, mPolicy{Action: int64(r.Range(1, 8)), Event: 1})
+		p := mPolicy{Action: int64(r.Range(1, 8)), Timeout: to()}
+		switch r.Intn(4) {
+		case 0:
+			p.Event = 1
+		case 1:
+			p.Events = []int64{1}
+		case 2:
+			p.Event, p.Events = 1, []int64{1}
+		default:
+			p.Events = []int64{1, 1}
+		}
+		ps = append(ps, p)
 	default:
 		evs := shuffle(r, []int64{2, 3, 4, 5, 6, 7, 8})
 		n := r.Range(1, 3)
 		for i := 0; i < n && len(evs) > 0; i++ {
-			k := r.Range(1, 2)
+			k := r.Range(1, 3)
 			if k > len(evs) {
 				k = len(evs)
 			}
-			p := mPolicy{Action: int64(r.Range(1, 8))}
-			if r.Chance(1, 2) {
-				p.Event = evs[0]
-				p.Events = append([]int64{}, evs[1:k]...)
-				if r.Chance(1, 3) {
-					p.Events = append(p.Events, p.Event) // a duplicate inside one policy is dropped
-				}
-			} else {
-				p.Events = append([]int64{}, evs[:k]...)
-			}
+			chunk := append([]int64{}, evs[:k]...)
 			evs = evs[k:]
+			p := mPolicy{Action: int64(r.Range(1, 8)), Timeout: to()}
+			switch r.Intn(4) {
+			case 0:
+				p.Event, p.Events = chunk[0], chunk[1:]
+			case 1:
+				p.Events = chunk
+			case 2:
+				p.Event, p.Events = chunk[0], append(append([]int64{}, chunk[1:]...), chunk[0])
+			default:
+				p.Events = append(chunk, chunk[r.Intn(len(chunk))])
+			}
 			ps = append(ps, p)
 		}
 	}
@@ -1036,7 +1071,7 @@ func genPolicies(r *vh.Rng) []mPolicy {
 		if r.Chance(1, 6) {
 			a = int64(vh.Pick(r, []int{0, 9, 14})) // the action of an exit-code policy is not checked
 		}
-		ps = append(ps, mPolicy{Action: a, Exit: p64(codes[i])})
+		ps = append(ps, mPolicy{Action: a, Exit: p64(codes[i]), Timeout: to()})
 	}
 	return ps
 }
@@ -1175,33 +1210,84 @@ var defectNames = []string{"no-tasks", "dup-task-name", "task-minavail-gt-replic
 	"queue-missing", "queue-not-open", "queue-root", "queue-not-leaf", "deps-cycle", "deps-self", "deps-dangling", "deps-duplicate",
 	"bad-template", "bad-task-name", "bad-job-name", "partition-total", "partition-size", "partition-replicas", "partition-minavail",
 	"partition-nt-conflict", "job-nt-conflict", "negative-replicas", "replica-overflow", "dotted-task-name", "exitcode-bad-action",
-	"explicit-default-name"}
+	"explicit-default-name", "partition-overflow", "partition-negative-min", "mpi-unparsable-args", "mpi-unparsable-args-default-master"}
 
+// policy lists validatePolicies must refuse.  Each class comes with the
+// offending value in the singular field, in the plural field, and in the singular
+// field of a policy whose plural field is legal (and vice versa).
 func badPolicies(r *vh.Rng, kind string) []mPolicy {
+	e := int64(r.Range(2, 8))
+	f := e%7 + 2 // another allowed event, 2..8, != e
+	g := f%7 + 2
+	if g == e {
+		g = g%7 + 2
+	}
+	internal := int64(vh.Pick(r, []int{9, 10, 11, 12}))
 	switch kind {
 	case "bad-event":
-		if r.Chance(1, 2) {
-			return []mPolicy{{Action: 1, Event: int64(vh.Pick(r, []int{9, 10, 11, 12}))}}
+		switch r.Intn(5) {
+		case 0:
+			return []mPolicy{{Action: 1, Event: internal}}
+		case 1:
+			return []mPolicy{{Action: 1, Events: []int64{e, int64(vh.Pick(r, []int{0, 9, 12}))}}}
+		case 2:
+			return []mPolicy{{Action: 1, Event: internal, Events: []int64{e}}} // illegal part only in `event`
+		case 3:
+			return []mPolicy{{Action: 1, Event: e, Events: []int64{f, internal}}}
+		default:
+			return []mPolicy{{Action: 1, Events: []int64{internal}}}
 		}
-		return []mPolicy{{Action: 1, Events: []int64{2, int64(vh.Pick(r, []int{0, 9, 12}))}}}
 	case "bad-action":
-		return []mPolicy{{Action: int64(vh.Pick(r, []int{0, 9, 10, 13, 14})), Event: int64(r.Range(1, 8))}}
-	case "event-and-exitcode":
-		return []mPolicy{{Action: 2, Event: 2, Exit: p64(3)}}
-	case "empty-policy":
-		return []mPolicy{{Action: 2}}
-	case "dup-event":
-		e := int64(r.Range(2, 8))
-		return []mPolicy{{Action: 2, Event: e}, {Action: 3, Events: []int64{e}}}
-	case "any-with-others":
-		if r.Chance(1, 2) {
-			return []mPolicy{{Action: 2, Event: 1}, {Action: 3, Event: int64(r.Range(2, 8))}}
+		a := int64(vh.Pick(r, []int{0, 9, 10, 13, 14}))
+		switch r.Intn(3) {
+		case 0:
+			return []mPolicy{{Action: a, Event: int64(r.Range(1, 8))}}
+		case 1:
+			return []mPolicy{{Action: a, Events: []int64{e, f}}}
+		default:
+			return []mPolicy{{Action: 2, Event: e}, {Action: a, Event: f, Events: []int64{g}}}
 		}
-		return []mPolicy{{Action: 2, Events: []int64{int64(r.Range(2, 8)), 1}}}
+	case "event-and-exitcode":
+		switch r.Intn(3) {
+		case 0:
+			return []mPolicy{{Action: 2, Event: e, Exit: p64(3)}}
+		case 1:
+			return []mPolicy{{Action: 2, Events: []int64{e}, Exit: p64(3)}}
+		default:
+			return []mPolicy{{Action: 2, Event: e, Events: []int64{f}, Exit: p64(3)}}
+		}
+	case "empty-policy":
+		return []mPolicy{{Action: 2, Timeout: int64(vh.Pick(r, []int{0, 30}))}}
+	case "dup-event":
+		switch r.Intn(5) {
+		case 0:
+			return []mPolicy{{Action: 2, Event: e}, {Action: 3, Events: []int64{e}}}
+		case 1:
+			return []mPolicy{{Action: 2, Event: e}, {Action: 3, Event: e, Events: []int64{f}}} // duplicate only in `event`
+		case 2:
+			return []mPolicy{{Action: 2, Events: []int64{e, f}}, {Action: 3, Event: g, Events: []int64{e}}}
+		case 3:
+			return []mPolicy{{Action: 2, Event: e, Events: []int64{f}}, {Action: 3, Event: f}}
+		default:
+			return []mPolicy{{Action: 2, Events: []int64{f}}, {Action: 3, Exit: p64(9)}, {Action: 3, Event: f, Events: []int64{g}}}
+		}
+	case "any-with-others":
+		switch r.Intn(5) {
+		case 0:
+			return []mPolicy{{Action: 2, Event: 1}, {Action: 3, Event: e}}
+		case 1:
+			return []mPolicy{{Action: 2, Events: []int64{e, 1}}}
+		case 2:
+			return []mPolicy{{Action: 2, Event: 1, Events: []int64{e}}} // '*' only in `event`
+		case 3:
+			return []mPolicy{{Action: 2, Events: []int64{e}}, {Action: 3, Event: 1, Events: []int64{f}}}
+		default:
+			return []mPolicy{{Action: 2, Event: e, Events: []int64{1}}}
+		}
 	case "exitcode-zero":
 		return []mPolicy{{Action: 2, Exit: p64(0)}}
 	case "dup-exitcode":
-		return []mPolicy{{Action: 2, Exit: p64(7)}, {Action: 3, Event: 2}, {Action: 3, Exit: p64(7)}}
+		return []mPolicy{{Action: 2, Exit: p64(7)}, {Action: 3, Event: e, Events: []int64{f}}, {Action: 3, Exit: p64(7)}}
 	}
 	panic(kind)
 }
@@ -1374,6 +1460,53 @@ func inject(r *vh.Rng, j *mJob, kind string) bool {
 		renameRefs(j, old, 9)
 	case "exitcode-bad-action":
 		j.Policies = []mPolicy{{Action: int64(vh.Pick(r, []int{0, 9, 14})), Exit: p64(3)}}
+	case "partition-overflow":
+		// 65536*65536 wraps to 0 in int32: replicas 0 "equals" totalPartitions*partitionSize
+		t.Part = &mPart{65536, 65536, int64(vh.Pick(r, []int{0, 65536})), 0}
+		t.Replicas = 0
+		t.MinAvail = vh.Pick(r, []*int64{nil, p64(0)})
+		j.MinAvail = 0
+	case "partition-negative-min":
+		// minPartitions <= 0 switches the minAvailable relation off
+		t.Part = &mPart{2, 2, int64(vh.Pick(r, []int{-1, 0})), 0}
+		t.Replicas = 4
+		t.MinAvail = p64(int64(r.Range(0, 4)))
+		j.MinAvail = 0
+	case "mpi-unparsable-args", "mpi-unparsable-args-default-master":
+		// the mpi FlagSet stops at an unknown flag, so --master=<existing task> is ignored
+		// and the lookup falls back to "master"
+		var ps []mPlugin
+		for _, p := range j.Plugins {
+			if p.Name != 5 {
+				ps = append(ps, p)
+			}
+		}
+		hasMaster := false
+		for _, x := range j.Tasks {
+			if x.Name == 1 {
+				hasMaster = true
+			}
+		}
+		if kind == "mpi-unparsable-args" && hasMaster {
+			return false
+		}
+		if kind == "mpi-unparsable-args-default-master" && !hasMaster {
+			old := t.Name
+			t.Name = 1
+			renameRefs(j, old, 1)
+		}
+		other := t.Name
+		for _, x := range j.Tasks {
+			if x.Name != 1 {
+				other = x.Name
+			}
+		}
+		if other == 1 {
+			other = 7 // no such task; irrelevant, the flag is never read
+		}
+		j.HasPlugins = true
+		j.Plugins = append(ps, mPlugin{Name: 5, Master: other, Args: argsUnparsable})
+		sort.Slice(j.Plugins, func(a, b int) bool { return j.Plugins[a].Name < j.Plugins[b].Name })
 	case "explicit-default-name":
 		// "default<k>" given explicitly; collides after defaulting only if task k is unnamed
 		for _, x := range j.Tasks {
@@ -1444,7 +1577,8 @@ func genUpdate(r *vh.Rng, cur mJob) (mJob, string) {
 	t := &n.Tasks[ti]
 	kind := vh.Pick(r, []string{"replicas", "replicas", "replicas", "replicas-bad", "job-minavail", "job-minavail-bad", "prio", "prio",
 		"identity", "task-name", "template", "policies", "queue", "deps", "volume-mount", "plugin", "maxretry", "sched", "rest", "nt",
-		"add-task", "remove-task", "claimname-fill", "claimname-change", "plugins-empty", "task-maxretry", "partition", "combo", "combo"})
+		"add-task", "remove-task", "claimname-fill", "claimname-change", "plugins-empty", "task-maxretry", "partition", "combo", "combo",
+		"policy-timeout", "policy-event-to-events", "iteration", "claim-spec", "plugin-args"})
 	switch kind {
 	case "replicas", "combo":
 		if t.Part != nil {
@@ -1564,6 +1698,51 @@ func genUpdate(r *vh.Rng, cur mJob) (mJob, string) {
 		// nil and empty plugin maps are semantically equal
 		if len(n.Plugins) == 0 {
 			n.HasPlugins = !n.HasPlugins
+		}
+	case "policy-timeout":
+		// only the timeout of one policy changes
+		if len(n.Policies) > 0 {
+			n.Policies = append([]mPolicy{}, cur.Policies...)
+			n.Policies[0].Timeout = cur.Policies[0].Timeout + 5
+		} else {
+			n.Policies = []mPolicy{{Action: 2, Event: 2, Timeout: 5}}
+		}
+	case "policy-event-to-events":
+		// same trigger set, written in the other field: the spec differs all the same
+		hit := false
+		n.Policies = append([]mPolicy{}, cur.Policies...)
+		for i := range n.Policies {
+			if n.Policies[i].Event != 0 && !hit {
+				n.Policies[i].Events = append(append([]int64{}, n.Policies[i].Events...), n.Policies[i].Event)
+				n.Policies[i].Event = 0
+				hit = true
+			}
+		}
+		if !hit {
+			n.Prio = int64(r.Intn(3))
+		}
+	case "iteration":
+		if t.HasDeps {
+			t.Iter = (t.Iter + 1) % 3
+		} else {
+			n.Prio = int64(r.Intn(3))
+		}
+	case "claim-spec":
+		hit := false
+		for i := range n.Vols {
+			if n.Vols[i].Claim != nil {
+				n.Vols[i].Claim = p64(*n.Vols[i].Claim%3 + 1)
+				hit = true
+			}
+		}
+		if !hit {
+			n.Prio = int64(r.Intn(3))
+		}
+	case "plugin-args":
+		if len(n.Plugins) > 0 {
+			n.Plugins[0].Args = (n.Plugins[0].Args + 1) % 4
+		} else {
+			n.Prio = int64(r.Intn(3))
 		}
 	case "partition":
 		if t.Part != nil {
@@ -1710,6 +1889,16 @@ func gen(rng *vh.Rng, n int, emit func(id string, sel int, in []int64, kind stri
 				j.Tasks[k].MinAvail = p64(j.Tasks[k].Replicas)
 			}
 		}
+		hkind := "update/history"
+		if ru.Chance(1, 6) {
+			// a stored object that CREATE would refuse today: UPDATE re-checks the numbers and
+			// the topology conflict on its own
+			d := vh.Pick(ru, []string{"job-nt-conflict", "task-minavail-gt-replicas", "partition-nt-conflict", "job-minavail-gt-total",
+				"negative-replicas", "partition-replicas"})
+			if inject(ru, &j, d) {
+				hkind = "update/history-invalid-stored"
+			}
+		}
 		cur := j
 		var us []mJob
 		kinds := []string{}
@@ -1730,7 +1919,7 @@ func gen(rng *vh.Rng, n int, emit func(id string, sel int, in []int64, kind stri
 		for _, u := range us {
 			l = encJob(l, u, false)
 		}
-		emit(fmt.Sprintf("update-%d", i), 3, l, "update/history", true, map[string]any{"job": descJob(j), "updates": kinds})
+		emit(fmt.Sprintf("update-%d", i), 3, l, hkind, true, map[string]any{"job": descJob(j), "updates": kinds})
 	}
 	// 6. topoSort on bare graphs
 	rt := rng.Fork()
